@@ -15,7 +15,7 @@ package hx
 //   update{steps,fail}               one KVInterface.Update call (steps: set/del/get/has/view)
 //   bulk{sets,fail}                  one KVInterface.BulkWrite call
 //   sync{kvs}                        after a callback that returned an error: the store's content
-//                                    as found (rollback-vs-commit is reported, not judged)
+//                                    as found (a failed callback must leave the map as it was: the dump after it is judged)
 // Iterator steps: ["seek",k] ["rseek",k] ["next"] ["get",k] ["scan",p] ["rscan",k,p]
 //   "next" is guarded: it calls Next() only when Valid() (Next on an invalid iterator is outside
 //   the interface's use: every caller in kvgraph/kvindex loops `for it.Seek(p); it.Valid() && …; it.Next()`).
@@ -679,11 +679,7 @@ func c10Generate(r *Run) {
 					o := st.exec(op)
 					r.Emit(op, o)
 					r.Count("txview:" + op["op"].(string))
-					if op["op"] == "update" && fail {
-						// rollback or commit after a failed callback: reported, not judged (see below)
-						so := c10M{"op": "sync", "kvs": st.dump()}
-						r.Emit(so, st.exec(so))
-					}
+					// (after the failed update the dump that follows is judged: the map is as it was)
 				}
 			}
 			r.NonTrivial("txview-" + d)
@@ -746,7 +742,8 @@ func c10Generate(r *Run) {
 						}
 					}
 					if op["fail"] == true {
-						// rollback or commit: report, do not judge; tell the model what the store holds now
+						// a failed callback: the transaction leaves the map as it was (the MODEL rolls back;
+						// judged by the dump below); the counter says what the store did
 						now := st.dump()
 						what := "other"
 						if c10SameDump(now, before) && c10SameDump(now, g.shadow) {
@@ -757,12 +754,8 @@ func c10Generate(r *Run) {
 							what = "commit"
 						}
 						r.Count("failed-" + op["op"].(string) + ":" + d + ":" + what)
-						g.shadow = map[string]string{}
-						for _, kv := range now {
-							p := kv.([]interface{})
-							g.shadow[string(c10unhex(p[0]))] = string(c10unhex(p[1]))
-						}
-						emit(c10M{"op": "sync", "kvs": now})
+						g.shadow = before
+						emit(c10M{"op": "dump"})
 					}
 				}
 			}
